@@ -272,6 +272,8 @@ func c12r3(rc *core.RC) {
 					rc.OK(key, core.SSAPos(c), "bytes handed to the callback are a fresh copy")
 				case stream:
 					rc.Bad(key, core.SSAPos(c), "in stream mode the bytes handed to %s derive from %s: the window is reused by later reads, so what the callback keeps is overwritten", m, bad)
+				case m == "UnmarshalJSON":
+					rc.Bad(key, core.SSAPos(c), "the bytes handed to UnmarshalJSON derive from %s: a window of the private input copy whose capacity reaches to the end of the document, so an append inside the method (or later, through a slice it kept) overwrites text Unmarshal still has to decode and strings it has already decoded; every other site hands over a fresh copy", bad)
 				default:
 					rc.Note(key, core.SSAPos(c), "buffer mode passes bytes derived from %s (the per-call private copy)", bad)
 				}
@@ -961,5 +963,43 @@ func c12r10(rc *core.RC) {
 	}
 	if n < 2 {
 		rc.Unknown("decoder/context-buffers", token.NoPos, "found %d stores to RuntimeContext.Buf in the decoder package", n)
+	}
+}
+
+// ---- C12.R11 only the entry points take a context from the decoder's pool ----
+
+// A pooled decoder context still holds, in Buf, the private input copy of the Unmarshal call that used it last, and
+// the strings that call returned are views of it. The entry points of package json overwrite Buf with the copy of
+// their own input and own the context until they release it. A decoder that takes a second context from the pool in
+// the middle of a decode and reuses its Buf as scratch overwrites the strings of an earlier result, and hands out
+// strings that the next taker overwrites. The callers of decoder.TakeRuntimeContext are a frozen set: the four
+// unmarshal functions of package json.
+func c12r11(rc *core.RC) {
+	p := rc.P
+	allowed := map[string]bool{"json.unmarshal": true, "json.unmarshalContext": true, "json.unmarshalNoEscape": true, "json.extractFromPath": true}
+	n := 0
+	for _, pk := range []string{"json", "decoder"} {
+		for _, fd := range p.Funcs(pk) {
+			if fd.Body == nil {
+				continue
+			}
+			info := p.Info(fd)
+			fn := p.FuncName(fd)
+			ast.Inspect(fd.Body, func(m ast.Node) bool {
+				c, ok := m.(*ast.CallExpr)
+				if !ok || core.CalleeName(info, c) != "decoder.TakeRuntimeContext" {
+					return true
+				}
+				n++
+				rc.CallSites++
+				rc.Touch(fn)
+				key := fn + "/takes-a-pooled-decoder-context"
+				rc.Check(allowed[fn], key, c.Pos(), "only the unmarshal entry points of package json take a context from the decoder's pool (they replace its buffer by the copy of their own input and own it until the release); %s is not one of them: the pooled buffer it reuses holds strings of an earlier result", fn)
+				return true
+			})
+		}
+	}
+	if n < 4 {
+		rc.Unknown("decoder/pool-takers", token.NoPos, "found %d calls of decoder.TakeRuntimeContext (confirmed: 4)", n)
 	}
 }
